@@ -20,6 +20,18 @@ pub struct IV {
     pub bits: u32,
 }
 
+/// `diff % stride` computed in the narrowest native type that holds both (a 64-bit divider circuit per modulo
+/// made the SAT proofs of the 1-byte harnesses take minutes; diff < 2^bits and stride < 2^bits by construction).
+pub fn umod(diff: u64, stride: u64, bits: u32) -> u64 {
+    if bits <= 8 {
+        ((diff as u16) % (stride as u16)) as u64
+    } else if bits <= 16 {
+        ((diff as u32) % (stride as u32)) as u64
+    } else {
+        diff % stride
+    }
+}
+
 /// Arbitrary well-formed interval of width `bits` with stride <= max_stride.
 pub fn any_iv<S: Src>(s: &mut S, bits: u32, max_stride: u64) -> IV {
     let st = sext(s.uw(bits), bits);
@@ -31,7 +43,8 @@ pub fn any_iv<S: Src>(s: &mut S, bits: u32, max_stride: u64) -> IV {
         s.assume(stride == 0);
     } else {
         s.assume(stride > 0);
-        s.assume((en.wrapping_sub(st) as u64) % stride == 0);
+        s.assume(stride <= mask(bits));
+        s.assume(umod(en.wrapping_sub(st) as u64, stride, bits) == 0);
     }
     IV { s: st, e: en, stride, bits }
 }
@@ -53,8 +66,11 @@ pub fn ref_contains(iv: &IV, v: i64) -> bool {
     }
     if iv.stride == 0 {
         v == iv.s
+    } else if iv.stride > mask(iv.bits) {
+        // a stride that does not fit the width can only be met by the start value itself
+        v == iv.s
     } else {
-        (v.wrapping_sub(iv.s) as u64) % iv.stride == 0
+        umod(v.wrapping_sub(iv.s) as u64, iv.stride, iv.bits) == 0
     }
 }
 
@@ -90,7 +106,7 @@ pub fn wf_iv(m: &IV) -> bool {
     if m.s == m.e {
         m.stride == 0
     } else {
-        m.stride > 0 && (m.e.wrapping_sub(m.s) as u64) % m.stride == 0
+        m.stride > 0 && m.stride <= mask(m.bits) && umod(m.e.wrapping_sub(m.s) as u64, m.stride, m.bits) == 0
     }
 }
 
@@ -252,8 +268,8 @@ pub fn adjust<S: Src>(s: &mut S, bits: u32, max_stride: u64) {
     let v = sext(s.uw(bits), bits);
     s.note(&|| format!("raw interval [{}, {}] stride {} ({} bits), v = {}", st, en, stride, bits, v));
     // values on the stride counted from the start (for adjust_end) / from the end (for adjust_start)
-    let from_start = v >= st && v <= en && (if stride == 0 { v == st } else { ((v - st) as u64) % stride == 0 });
-    let from_end = v >= st && v <= en && (if stride == 0 { v == en } else { ((en - v) as u64) % stride == 0 });
+    let from_start = v >= st && v <= en && (if stride == 0 { v == st } else { umod((v - st) as u64, stride, bits) == 0 });
+    let from_end = v >= st && v <= en && (if stride == 0 { v == en } else { umod((en - v) as u64, stride, bits) == 0 });
     let mut i = Interval { start: mk(bits, st as u64), end: mk(bits, en as u64), stride };
     i.adjust_end_to_value_in_stride();
     match read_back(s, &i, bits) {
